@@ -190,6 +190,24 @@ func (e *env) observe(c chain, batchSizes []int) hx.M {
 		res := c.apply(e.db).Model(&R{}).Pluck("id", &ids)
 		o["pluck"], o["pluck_err"] = nz(ids), ec(res.Error)
 	}
+	// a read continued from the value Count returns (Count on a reusable handle of the chain)
+	{
+		var n int64
+		var out []R
+		cc := c
+		if cc.Scope == "session" || cc.Scope == "withctx" {
+			// (a scope function that returns a Session/WithContext handle makes Count hand back a statement that
+			// still selects count(*): observation O8, outside the property -- the condition is given directly here)
+			cc.Scope = ""
+		}
+		h := cc.apply(e.db).Model(&R{}).Session(&gorm.Session{})
+		res := h.Count(&n).Find(&out)
+		ids := []int64{}
+		for _, r := range out {
+			ids = append(ids, r.ID)
+		}
+		o["count_find"], o["count_find_err"] = ids, ec(res.Error)
+	}
 	// Count (without limit / offset), single-record finders (no order/limit/offset of the user's)
 	bare := chain{CondOn: c.CondOn, Gt: c.Gt, Scope: c.Scope}
 	{
